@@ -15,6 +15,7 @@ func init() {
 		&Rule{ID: "AZ-DISJ", Doc: "a check is recorded as failed exactly when none of its queries (full range) returned a fact", Run: ruleAZDisj, Min: 3},
 		&Rule{ID: "AZ-PRECEDENCE", Doc: "every return that can be nil or a policy verdict is dominated by len(errs)==0 evaluated after all check loops", Run: ruleAZPrecedence, Min: 3},
 		&Rule{ID: "AZ-POLICY", Doc: "policies are tried in order until the first one with a satisfied query; allow->nil, deny->ErrPolicyDenied, none->ErrNoMatchingPolicy", Run: ruleAZPolicy, Min: 5},
+		&Rule{ID: "AZ-LOAD", Doc: "every Authorize loads all authority facts and rules into the authority-level world before running it, and all facts and rules of a block into its clone before running that", Run: ruleAZLoad, Min: 4},
 		&Rule{ID: "AZ-REINTERN", Doc: "token facts/rules/checks enter a world only after fromDatalogX(token symbols) and convert(authorizer symbols)", Run: ruleAZReintern, Min: 7},
 	)
 }
@@ -328,6 +329,25 @@ func ruleAZWorldSel(p *Prog, r *Reporter) {
 		}
 		if n == 0 {
 			r.Bad(p.Pos(m.Pos()), p.FuncName(m), "Query", "Query does not query any world")
+		}
+		// every QueryRule is reached only through the success edge of a Run of the same world in this call
+		for _, cl := range callsIn(m) {
+			if !isCallTo(cl.Common(), "datalog.World.QueryRule") {
+				continue
+			}
+			okRun := false
+			for _, rc := range callsIn(m) {
+				rv, isV := rc.(*ssa.Call)
+				if !isV || !isCallTo(rc.Common(), "datalog.World.Run") || p.D(rc.Common().Args[0]) != p.D(cl.Common().Args[0]) {
+					continue
+				}
+				for _, nb := range nilTests(rv) {
+					if nb.isNil != nil && len(nb.isNil.Preds) == 1 && (nb.isNil == cl.Block() || nb.isNil.Dominates(cl.Block())) {
+						okRun = true
+					}
+				}
+			}
+			r.Check(okRun, p.instrPos(cl), p.FuncName(m), "QueryRule after Run", "reached only after a successful Run of the queried world in the same call", "Query can answer without (successfully) running the world in this call: after an evaluation that stopped on a limit, or after content was added, it reports facts of a fixpoint that was not reached")
 		}
 	}
 }
@@ -952,4 +972,98 @@ func (c *azCtx) disjByContinue(p *Prog, inner, outer *rangeLoop, sameLoop func(*
 		}
 	}
 	return true, ""
+}
+
+func ruleAZLoad(p *Prog, r *Reporter) {
+	globalP = p
+	c := p.azContext(r)
+	if c == nil {
+		return
+	}
+	name := p.FuncName(c.fn)
+	type want struct {
+		seqD   string // loop over this
+		method string // AddFact / AddRule
+		inBlk  bool
+	}
+	find := func(seqSuffix, method string, inBlock bool) (*rangeLoop, *ssa.Call) {
+		for _, rl := range c.loops {
+			d := p.D(rl.seq)
+			if !strings.HasSuffix(d, seqSuffix) {
+				continue
+			}
+			isBlk := c.blocks != nil && c.blocks.body[rl.header] && rl != c.blocks
+			if isBlk != inBlock {
+				continue
+			}
+			if !inBlock && !strings.HasPrefix(strings.TrimPrefix(d, "*"), c.V+".biscuit.authority.") {
+				continue
+			}
+			for _, cl := range callsIn(c.fn) {
+				cv, ok := cl.(*ssa.Call)
+				if !ok || !rl.inside(cv.Block()) {
+					continue
+				}
+				if m, isW := isWorldMethod(&cv.Call); isW && m == method && dependsOn(cv.Call.Args[1], func(x ssa.Value) bool { return rl.isElem(x) }) {
+					return rl, cv
+				}
+			}
+		}
+		return nil, nil
+	}
+	check := func(what, seqSuffix, method string, inBlock bool) {
+		rl, add := find(seqSuffix, method, inBlock)
+		if rl == nil {
+			r.Bad(p.Pos(c.fn.Pos()), name, "load "+what, "no full-range loop adds the "+what+" to the world that is then evaluated")
+			return
+		}
+		// every continuing iteration adds its element (or returns an error)
+		okEach := true
+		for _, latch := range rl.latches {
+			if reachAvoiding(rl.bodyBB, latch, blockSet{add.Block(): true}) && latch != add.Block() {
+				okEach = false
+			}
+		}
+		// the Run of the same world follows, on every path (the loop is not conditional)
+		var run *ssa.Call
+		for _, cl := range callsIn(c.fn) {
+			if cv, ok := cl.(*ssa.Call); ok && isCallTo(&cv.Call, "datalog.World.Run") {
+				same := cv.Call.Args[0] == add.Call.Args[0] || p.D(cv.Call.Args[0]) == p.D(add.Call.Args[0])
+				if same && (rl.doneBB == cv.Block() || rl.doneBB.Dominates(cv.Block())) {
+					run = cv
+				}
+			}
+		}
+		okUncond := run != nil
+		if run != nil {
+			// the loop header dominates the Run: it cannot be skipped
+			okUncond = rl.header.Dominates(run.Block())
+			if inBlock {
+				okUncond = okUncond && c.blocks.bodyBB.Dominates(rl.header)
+			} else {
+				okUncond = okUncond && rl.header.Dominates(run.Block()) && dominatedUnconditionally(c.fn, rl.header)
+			}
+		}
+		r.Check(okEach && okUncond, p.instrPos(add), name, "load "+what, "loaded on every call, element by element, before the world is run", firstNonEmpty(cond(!okEach, "an element of the "+what+" can be skipped"), "loading the "+what+" is conditional or not followed by Run of that world: after some histories (Query, a second Authorize) the "+what+" are missing from the evaluation"))
+	}
+	check("authority facts", ".facts", "AddFact", false)
+	check("authority rules", ".rules", "AddRule", false)
+	if c.blocks != nil {
+		check("block facts", ".facts", "AddFact", true)
+		check("block rules", ".rules", "AddRule", true)
+	}
+}
+
+// dominatedUnconditionally: blk is reached on every path from the entry that does not end in an error return,
+// i.e. no branch around it leads to a non-error continuation.
+func dominatedUnconditionally(fn *ssa.Function, blk *ssa.BasicBlock) bool {
+	for _, ret := range returnsOf(fn) {
+		if isErrorReturn(ret) {
+			continue
+		}
+		if reachAvoiding(fn.Blocks[0], ret.Block(), blockSet{blk: true}) {
+			return false
+		}
+	}
+	return true
 }
